@@ -61,10 +61,10 @@ def _(E):
 @family("C08/Shape.bbox/union_and_stroke", [(tr, ws) for tr in (True, False) for ws in (True, False)],
         funcs=["Shape.bbox", "Path.segments", "GraphicObject.implicit_stroke_width", "PathSegment.__mul__",
                "Matrix.is_identity", "Matrix.determinant"], kind="S",
-        note="segment list of a fixed representative shape (Move, Line, Quadratic, Line, Close)")
+        note="segment list of a fixed representative shape (Move, Line, Close); curve boxes have their own obligations")
 def _(E, case):
     transformed, with_stroke = case
-    p = mk_path(E, kinds=("Move", "Line", "QuadraticBezier", "Line", "Close"))
+    p = mk_path(E, kinds=("Move", "Line", "Close"))
     painted = E.choice("stroke", ["painted", "none", "absent"])
     if painted == "none":
         E.set(p, "stroke", E.new("Color", value=None))
